@@ -335,6 +335,18 @@ PlayAfterSeekLoopFails(ev, sg, c, from) ==
   ELSE IF li.valid /\ li.any /\ li.hasE /\ (\E i \in DOMAIN sg.its : sg.its[i].tick = li.etick /\ sg.its[i].trk = li.etrk /\ sg.its[i].k = "tempo") THEN {}
   ELSE PASLF(ev, c, from, EntriesOf(ev.calls, "e"), Gated(sg, sg.its, c.enabled, c.solo), li)
 
+\* ---- C07 at the synthesizer side: the channel events reach the channel they are meant for.  After a complete play with
+\* looping off the controller state of EVERY synthesizer channel (all ports) is the fold of the delivered channel events, each
+\* applied to channel 16 * port(track) + file channel (Synth controller semantics, as for a seek)
+RouteItems(sg, c, its) ==
+  [i \in DOMAIN its |-> IF its[i].ty \in 8..14 THEN [its[i] EXCEPT !.ch = 16 * PortOfFileChannel(sg, c, its[i].ch) + its[i].ch] ELSE its[i]]
+PlayCtlFails(ev, sg, c) ==
+  LET its  == RouteItems(sg, c, Gated(sg, sg.its, c.enabled, c.solo))
+      S0   == Init0([i \in 1..48 |-> i - 1], 12, 0, <<>>, 44100, FALSE, -1, 0)
+      exp  == FoldCtl(S0, its, 1)
+      snap == ev.s
+  IN Lbl(\A ch \in DOMAIN snap.mc : ch > 48 \/ CtlView(snap.mc[ch]) = CtlView(exp.mc[ch]), "controller-state-after-play")
+
 StepInit(ev) == /\ song' = [none |-> TRUE] /\ cfg' = [Cfg0 EXCEPT !.rate = ev.rate] /\ pos' = Pos0 /\ exec' = exec + 1 /\ fails' = fails /\ drift' = drift
                 /\ cnt' = [cnt EXCEPT !.execs = @ + 1]
 \* everything derived from the song is computed once here (TLC does not memoise operator applications)
@@ -418,7 +430,8 @@ StepPlayNormal(ev) ==
       fd == IF doRef THEN ModelVsReal(mrun, realLog, cfg.hooks) ELSE 0
       dr == fd # 0
       det == ToString(<<"loop", li, "n", cfg.loopN, "hooks", EntriesOf(ev.calls, "h"), "nLS", Count(EntriesOf(ev.calls, "h"), LAMBDA x : x[3] = 1), "times", [i \in DOMAIN D |-> D[i][2]]>>)
-      fm == IF ev.trunc = 0 THEN ChanMaskFails(ev, song, cfg) ELSE {}
+      fm == (IF ev.trunc = 0 THEN ChanMaskFails(ev, song, cfg) ELSE {}) \cup
+            (IF full /\ ~cfg.loopEn /\ ev.trunc = 0 /\ ev.atend = 1 /\ "s" \in DOMAIN ev THEN PlayCtlFails(ev, song, cfg) ELSE {})
       f8 == IF pos.moved /\ ~cfg.loopEn /\ ev.trunc = 0 /\ ev.steps = <<>> THEN PlayAfterSeekFails(ev, song, cfg, pos.t)
             ELSE IF afterSeek /\ cfg.loopEn /\ cfg.loopN >= 0 /\ ev.trunc = 0 /\ ev.steps = <<>> /\ "partial" \notin DOMAIN ev
                  THEN PlayAfterSeekLoopFails(ev, song, cfg, pos.t) ELSE {}
